@@ -156,6 +156,11 @@ def run(req):
             try:
                 if not clause(text, env2, old_env):
                     violated.append(f'post.{label}')
+            except (KeyError, IndexError, AttributeError) as err:
+                # the real result does not have the shape the clause describes (a missing key, item or field): as in the
+                # verifier, a postcondition that cannot be evaluated on the result is a violated one
+                violated.append(f'post.{label}')
+                errors[label] = 'not evaluable on the real result: ' + repr(err)
             except Exception as err:
                 errors[label] = repr(err)
         observed = repr(result)[:2000]
